@@ -1297,6 +1297,15 @@ class CallMixin:  # pylint:disable=too-many-public-methods
             return [items[i] for i in order]  # completion order = the schedule chosen by the rule
         if name == "asyncio.sleep":
             return Ready(None)
+        if name in ("attrs.evolve", "attr.evolve", "dataclasses.replace"):
+            inst = args[0]
+            if not (isinstance(inst, Obj) and inst.cls in self.model.classes):
+                raise Unsupported(f"{name} on {inst!r}")
+            cls_ = self.model.classes[inst.cls]
+            fields_ = self.model.attrs_fields(cls_)
+            values = {k_: inst.fields.get(k_) for k_ in fields_}
+            values.update(kwargs)
+            return self.construct_attrs(cls_, [], values, node, frame)  # a new instance built through __init__ (validators run again)
         if name == "contextlib.contextmanager":
             return Obj("contextlib.cm_factory", {"fn": args[0]})
         if name == "contextlib.nullcontext":
